@@ -382,7 +382,16 @@ let ctx_call pre_ fn a =
        (match List.rev a with r :: _ -> check_ctx r; check_add a r | [] -> ())
    | ("iter" | "keys" | "values"), _ when pre_ = !ty ->
        (match List.rev a with L (A "L" :: rs) :: _ -> List.iter (fun r -> check_ctx r; check_add a r) rs | _ -> ())
-   | "derive_add", [_r; A actor; c] when pre_ = "ctx" ->
+   | "derive_add", [r_; A actor; c] when pre_ = "ctx" ->
+       (* the derived add context covers everything the read's add context covers, plus the derived dot *)
+       (try
+          let add = vc_sx (field "add_clock" r_) and got = vc_sx (field "clock" c) and d = dot_sx (field "dot" c) in
+          count "C07";
+          if not (List.for_all (fun (x, n) -> int_of_n n <= int_of_n (vget got x)) (vc_to_list add)) then
+            report "C07" (Printf.sprintf "derive_add_ctx: the derived context %s does not cover the add context %s of the read it was derived from" (show_vc got) (show_vc add));
+          if int_of_n (vget got d.dactor) < int_of_n d.dcounter then
+            report "C07" (Printf.sprintf "derive_add_ctx: the derived context %s does not cover its own dot %s" (show_vc got) (show_dot d))
+        with Bad _ -> ());
        (match !pre with
         | [A "edit"; A r; A act] when r = act && act = actor && not !tainted ->
             (* freshness: the derived dot is the actor's next unused one *)
